@@ -49,6 +49,7 @@ type Gen struct {
 	Force       map[protoreflect.FieldNumber]bool
 	rootName    protoreflect.FullName
 	nestedForce int
+	chase       int
 	// LongLists is the probability (percent) that a populated scalar list gets 15..129 elements
 	LongLists int
 }
@@ -243,13 +244,22 @@ func (g *Gen) Fill(m protoreflect.Message, depth int) {
 	// so that the same field is populated at two nesting levels of one value (not in all of them:
 	// values of self-recursive types would grow geometrically)
 	if depth == 0 {
-		g.nestedForce = 1
+		g.nestedForce = 2
+		g.chase = 0
+	}
+	// chase: below a forced message-valued field, singular message fields are always populated
+	// for two more levels, so that a recursive schema is actually followed back to the root's type
+	chased := g.chase > 0
+	if chased {
+		g.chase--
+		defer func() { g.chase++ }()
 	}
 	sameAsRoot := depth == 0
 	if depth > 0 && md.FullName() == g.rootName && g.nestedForce > 0 {
 		g.nestedForce--
 		sameAsRoot = true
 	}
+	followed := false
 	oneofDone := map[string]bool{}
 	zbOrig := g.ZeroBias
 	defer func() { g.ZeroBias = zbOrig }()
@@ -291,7 +301,13 @@ func (g *Gen) Fill(m protoreflect.Message, depth int) {
 			continue
 		}
 		force := sameAsRoot && depth < g.MaxDepth && g.Force[fd.Number()]
-		if !force && (g.R.Intn(100) < 35 || g.left <= 0) {
+		// (only ONE field per chased message is followed: the first singular message field that can
+		// lead back to the root's type -- following all of them explodes on self-recursive types)
+		follow := chased && !followed && fd.Message() != nil && !fd.IsList() && !fd.IsMap() && depth < g.MaxDepth && g.reaches(fd.Message(), g.rootName, 4)
+		if follow {
+			followed = true
+		}
+		if !force && !follow && (g.R.Intn(100) < 35 || g.left <= 0) {
 			continue
 		}
 		g.left--
@@ -310,8 +326,14 @@ func (g *Gen) Fill(m protoreflect.Message, depth int) {
 				k := g.Scalar(fd.MapKey()).MapKey()
 				if fd.MapValue().Message() != nil {
 					sub := mp.NewValue()
-					if depth < g.MaxDepth && g.R.Intn(3) > 0 {
+					if depth < g.MaxDepth && (force || g.R.Intn(3) > 0) {
+						if force {
+							g.chase = 2
+						}
 						g.Fill(sub.Message(), depth+1)
+						if force {
+							g.chase = 0
+						}
 					}
 					mp.Set(k, sub)
 				} else {
@@ -334,8 +356,14 @@ func (g *Gen) Fill(m protoreflect.Message, depth int) {
 				g.left--
 				if fd.Message() != nil {
 					sub := l.NewElement()
-					if depth < g.MaxDepth && g.R.Intn(3) > 0 {
+					if depth < g.MaxDepth && (force || g.R.Intn(3) > 0) {
+						if force {
+							g.chase = 2
+						}
 						g.Fill(sub.Message(), depth+1)
+						if force {
+							g.chase = 0
+						}
 					}
 					l.Append(sub)
 				} else {
@@ -347,8 +375,14 @@ func (g *Gen) Fill(m protoreflect.Message, depth int) {
 				continue
 			}
 			sub := m.NewField(fd)
-			if g.R.Intn(4) > 0 {
+			if force || follow || g.R.Intn(4) > 0 {
+				if force {
+					g.chase = 2
+				}
 				g.Fill(sub.Message(), depth+1)
+				if force {
+					g.chase = 0
+				}
 			}
 			m.Set(fd, sub)
 		default:
@@ -511,4 +545,26 @@ func (g *Gen) mutateIn(m protoreflect.Message, depth int) bool {
 		}
 		return ok
 	}
+}
+
+// reaches reports whether a message of type `to` can occur inside a message of type md
+// (through at most `hops` levels of message-valued fields).
+func (g *Gen) reaches(md protoreflect.MessageDescriptor, to protoreflect.FullName, hops int) bool {
+	if md.FullName() == to {
+		return true
+	}
+	if hops == 0 {
+		return false
+	}
+	for i := 0; i < md.Fields().Len(); i++ {
+		fd := md.Fields().Get(i)
+		next := fd.Message()
+		if fd.IsMap() {
+			next = fd.MapValue().Message()
+		}
+		if next != nil && !next.IsMapEntry() && g.reaches(next, to, hops-1) {
+			return true
+		}
+	}
+	return false
 }
